@@ -129,9 +129,15 @@ type voteT struct {
 	Proof proofT
 	S     signerT
 	Pad   []byte // non-nil: signed header = canonical bytes followed by these
+	// RawHdr non-nil: the signed header is these bytes as they stand (a header another message type was signed over,
+	// e.g. the block ref of a genuine PREPARE), with S as the sender part
+	RawHdr []byte
 }
 
 func (v voteT) builder() *protocol.ViewChangeMessageContentBuilder {
+	if v.RawHdr != nil {
+		return &protocol.ViewChangeMessageContentBuilder{SignedHeader: protocol.ViewChangeHeaderBuilderFromRaw(v.RawHdr), Sender: v.S.sign(v.H, v.RawHdr)}
+	}
 	hdr := &protocol.ViewChangeHeaderBuilder{MessageType: v.T, InstanceId: v.I, BlockHeight: v.H, View: v.V, PreparedProof: v.Proof.builder()}
 	if v.Pad != nil {
 		canon := hdr.Build().Raw()
@@ -639,6 +645,31 @@ func (e *Engine) nvVariants(b primitives.MemberId, v uint64, proofs []proofSrc, 
 				vs[i].I = kit.Instance + 1
 				vs[i].S = signerT{ID: vs[i].S.ID, Mode: "valid"}
 				mk("vote-cross-instance-genuine", vs, V, ppA, me, me, blkA)
+			}
+			// a vote that declares another message type: the leader's own, genuinely signed as it stands; and a genuine
+			// PREPARE / COMMIT of a correct member for this very view in the place of its vote (same layout, signature verifies)
+			for _, ty := range []protocol.MessageType{protocol.LEAN_HELIX_PREPARE, protocol.LEAN_HELIX_COMMIT, protocol.LEAN_HELIX_PREPREPARE, protocol.LEAN_HELIX_NEW_VIEW} {
+				vs := append([]voteT{}, votes...)
+				vs[0].T = ty
+				mk("own-vote-other-type", vs, V, ppA, me, me, blkA)
+			}
+			for id := 0; id < e.nm; id++ {
+				m := e.msgs[id]
+				if m.Prim != "" || (m.Info.Kind != ref.KP && m.Info.Kind != ref.KC) || m.Info.Hdr.View != v || m.Info.Hdr.Height != 1 {
+					continue
+				}
+				var hdr, sig []byte
+				switch pm := interfaces.ToConsensusMessage(m.Raw).(type) {
+				case *interfaces.PrepareMessage:
+					hdr, sig = pm.Content().SignedHeader().Raw(), pm.Content().Sender().Signature()
+				case *interfaces.CommitMessage:
+					hdr, sig = pm.Content().SignedHeader().Raw(), pm.Content().Sender().Signature()
+				}
+				for i := 1; i < len(votes); i++ {
+					vs := append([]voteT{}, votes...)
+					vs[i] = voteT{H: H, RawHdr: hdr, S: signerT{ID: primitives.MemberId(m.Info.Sender.ID), Mode: "replay", Sig: sig}}
+					mk("vote-replaced-by-genuine-"+m.Info.Kind, vs, V, ppA, me, me, blkA)
+				}
 			}
 			// embedded PREPREPARE changed
 			pp := ppA
